@@ -289,7 +289,8 @@ def _solve_node(c, A, b, lower, upper, minimize, eps, max_iter):
     c_red = [c[j] for j in free_vars]
     fixed_obj = sum(c[j] * fixed[j] for j in fixed)
 
-    result = solve_lp(c_red, A_red, b_red, minimize=minimize, eps=eps, max_iter=max_iter)
+    # eps is this module's integrality/feasibility tolerance; the LP pivots need the simplex's own, tighter one
+    result = solve_lp(c_red, A_red, b_red, minimize=minimize, eps=min(eps, 1e-10), max_iter=max_iter)
 
     if result.status != LPStatus.OPTIMAL:
         return result
